@@ -254,6 +254,14 @@ func (c *Client) handleOne() {
 		// No tag was extracted (probably a conn error).
 		//
 		// Likely catastrophic. Notify all waiters and clear pending.
+		//
+		// After a connection error (the stream ended, or a frame announced
+		// an impossible size) the position in the stream is lost: nothing
+		// that follows can be trusted to be a frame. End the connection so
+		// that later calls fail instead of decoding garbage.
+		if _, isConnErr := err.(ConnError); isConnErr {
+			c.conn.Close()
+		}
 		c.pendingMu.Lock()
 		for _, resp := range c.pending {
 			resp.done <- err
